@@ -366,6 +366,11 @@ def extract(repo, overlay, spec):
             t, r = _op_lines(repo, p)
             chunks.append(t)
             report += r
+        elif op == 'anchor':
+            # must-match check only: the glue that follows relies on this text being present in the real file
+            t, r = _op_lines(repo, p)
+            chunks.append('/* cxx2c anchor: %d line(s) of %s match %r */\n' % (t.count('\n'), p['file'], p['regex']))
+            report += r
         elif op == 'struct':
             t, r = _op_struct(repo, p)
             struct_members[p.get('as', p['name'])] = p['_members']
